@@ -143,10 +143,48 @@ def _helper_value(program, f, elt, var):
     return norm(R().visit(ast.parse(t, mode='eval').body))
 
 
+def _through_strategy(program, f, text, collisions):
+    """`strategy(T, *A, **K)` where `strategy` is a parameter of f whose
+    default is a module-level `def F(factory, /, *args, **kwargs): return
+    factory(*args, **kwargs)` reads `T(*A, **K)` (the call made when the
+    parameter is not given).  If `factory` can also be bound by keyword, a
+    description kwarg of that name collides with it: recorded."""
+    try:
+        n = ast.parse(text, mode='eval').body
+    except SyntaxError:
+        return text
+    if not (isinstance(n, ast.Call) and isinstance(n.func, ast.Name)
+            and n.args and not isinstance(n.args[0], ast.Starred)):
+        return text
+    a = f.node.args
+    names = [x.arg for x in a.args]
+    if n.func.id not in names:
+        return text
+    i = names.index(n.func.id) - (len(names) - len(a.defaults))
+    if i < 0 or not isinstance(a.defaults[i], ast.Name):
+        return text
+    try:
+        g = program.func(f.module.name, a.defaults[i].id)
+    except AnalysisError:
+        return text
+    ga = g.node.args
+    body = strip_docstring(g.node.body)
+    first = (ga.posonlyargs + ga.args)[:1]
+    if not (len(ga.posonlyargs + ga.args) == 1 and ga.vararg and ga.kwarg
+            and not ga.kwonlyargs and len(body) == 1 and isinstance(
+                body[0], ast.Return) and norm(body[0].value)
+            == f'{first[0].arg}(*{ga.vararg.arg}, **{ga.kwarg.arg})'):
+        return text
+    if not ga.posonlyargs and any(k.arg is None for k in n.keywords):
+        collisions.append((g, first[0].arg))
+    return norm(ast.Call(n.args[0], n.args[1:], n.keywords))
+
+
 def check_populate(program, rep):
     f = program.func('desper.model.world', 'populate_world_from_dict')
     site = f.where
     wp, dp = f.params()[:2]
+    collisions = []
     w = Walker(program, _D(program))
     exits = w.run(f, None)
     rep.count('paths', len(exits))
@@ -184,7 +222,8 @@ def check_populate(program, rep):
             seen['proc'] += 1
             want = (f"{p0}['type'](*{p0}.get('args', []), "
                     f"**{p0}.get('kwargs', {{}}))")
-            a = [norm(x) for x in c.sym.node.args]
+            a = [_through_strategy(program, f, norm(x), collisions)
+                 for x in c.sym.node.args]
             if a != [want] or c.sym.node.keywords:
                 bad = bad or (c.node, 'the processor is not built as '
                               "type(*args, **kwargs) from its dict: "
@@ -262,13 +301,23 @@ def check_populate(program, rep):
                     seen['comp'] += 1
                     want = (f"{c0}['type'](*{c0}.get('args', []), "
                             f"**{c0}.get('kwargs', {{}}))")
-                    got = norm(x.sym.node.args[0])
+                    got = _through_strategy(program, f, norm(
+                        x.sym.node.args[0]), collisions)
                     if got != want:
                         bad = bad or (x.node, 'the component is not built as '
                                       'type(*args, **kwargs) from its dict: '
                                       + got)
     for k, v in seen.items():
         rep.floor('C15.populate', f'{k} constructions on the paths', v, 1)
+    if collisions:
+        g_, pn_ = collisions[0]
+        rep.bad('C15.populate', g_.where, g_.node.name,
+                f'the kwargs of a description are forwarded (**kwargs) to '
+                f'{g_.name}, whose parameter `{pn_}` can also be bound by '
+                f'keyword: a listed processor or component with a kwarg named '
+                f'"{pn_}" fails with TypeError (multiple values for argument) '
+                'and the world cannot be loaded - make the parameter '
+                'positional-only', line=g_.node.lineno)
     rep.check(bad is None, 'C15.populate', site,
               bad[0] if bad else 'populate_world_from_dict',
               'one add_processor(type(*args, **kwargs)) per processor dict; '
